@@ -143,6 +143,13 @@ func NewGen(seed int64, prop string, run int, thorough bool) *Gen {
 		g.consumers = append(g.consumers, g.providers[0])
 	}
 
+	cfg.WhaleAccount = -1
+	if prop == "C20" && g.chance(0.1) {
+		// amounts beyond 2^63 (deposits of 10^19 and more): only here, where no money oracle is armed
+		cfg.WhaleAccount = g.owners[0]
+		cfg.WhaleBalance = "500000000000000000000"
+		g.whale = true
+	}
 	cfg.InitialHeight = 1
 	if g.chance(prof.BigInitialHeight) {
 		cfg.InitialHeight = pickI64(g, []int64{2, 1000, 1 << 32, 1<<62 + 12345})
